@@ -210,7 +210,13 @@ type hist struct {
 
 func atoi(s string) int { var i int; fmt.Sscanf(s, "%d", &i); return i }
 
+var shard, nshards, histCounter int
+
 func runHist(w *cw.Writer, mon int, h hist, tag string) {
+	histCounter++
+	if nshards > 1 && histCounter%nshards != shard {
+		return // another process of this run executes this history
+	}
 	r := newRunner(h.o, h.cap, h.U)
 	defer r.close()
 	r.obs() // block 0: a new cache (Capacity rounding, empty views)
@@ -256,6 +262,8 @@ func main() {
 	tier := flag.String("tier", "quick", "")
 	out := flag.String("out", "", "")
 	prop := flag.String("prop", "C01", "")
+	flag.IntVar(&shard, "shard", 0, "")
+	flag.IntVar(&nshards, "nshards", 1, "")
 	flag.Parse()
 	rng := rand.New(rand.NewSource(*seed))
 	mon := map[string]int{"C01": 1, "C02": 2, "C03": 3, "C13": 13}[*prop]
@@ -297,23 +305,31 @@ func main() {
 	default:
 		alphabet = []string{"s1", "s2", "s3", "d1", "d2", "w", "x"}
 	}
-	for _, capacity := range []int{2, 4} {
+	type ecfg struct {
+		o        opt
+		capacity int
+	}
+	for _, ec := range []ecfg{{opt{}, 1}, {opt{}, 2}, {opt{true, 3, 2}, 2}, {opt{}, 4}} {
+		ec := ec
 		var rec func(prefix []string)
 		rec = func(prefix []string) {
 			if len(prefix) > 0 {
-				runHist(w, mon, hist{opt{}, capacity, 4, append(append([]string{}, prefix...), "w")}, "exhaustive")
+				runHist(w, mon, hist{ec.o, ec.capacity, 4, append(append([]string{}, prefix...), "w")}, "exhaustive")
 			}
-			if len(prefix) == L {
+			if len(prefix) == L || (ec.capacity == 4 && len(prefix) == L-1) {
 				return
 			}
 			for _, a := range alphabet {
+				if a[0] == 'r' && atoi(a[1:]) < ec.o.minimum {
+					continue // new capacity below the option's minimum partition count: outside the configuration class
+				}
 				rec(append(append([]string{}, prefix...), a))
 			}
 		}
 		rec(nil)
 	}
 	// structured random histories
-	R := 250
+	R := 400
 	if thorough {
 		R = 4000
 	}
@@ -392,7 +408,7 @@ func main() {
 		}
 	}
 	w.Extra["hooked"] = hooked
-	w.Extra["scope"] = fmt.Sprintf("prop %s: corpus %d; every history of <=%d labels over %v at capacities 2 and 4 (sweeps held, so un-swept states are reached); %d random histories of 10-70 labels over capacities 1..25 and 4 partitioning options", *prop, len(corpus), L, alphabet, R)
+	w.Extra["scope"] = fmt.Sprintf("prop %s: corpus %d; every history of <=%d labels over %v at (default,1) (default,2) (balanced(3,2),2 = 2 partitions of 1) (default,4 = 2x2) (sweeps held, so un-swept states are reached); %d random histories of 10-70 labels over capacities 1..25 and 4 partitioning options", *prop, len(corpus), L, alphabet, R)
 	if err := w.Flush(); err != nil {
 		fmt.Fprintln(os.Stderr, err)
 		os.Exit(2)
